@@ -357,6 +357,8 @@ func (c *Ctx) havocEverything(st *State) {
 	}
 	c.nepoch++
 	st.epoch = c.nepoch
+	c.nepoch++
+	st.pepoch = c.nepoch
 	st.heap = map[string]string{}
 	nx := c.fresh("next", "Int")
 	c.assumeAlways(app(">=", nx, next))
@@ -385,24 +387,31 @@ func (c *Ctx) ghostLeaves() (names, sorts []string) {
 	return
 }
 
-// havocEverythingButGhost: like havocEverything, but the ghost variables keep their values
-// (contract clause "assigns everything" + "noghost": the callee has no ghost effects).
+// havocEverythingButGhost: the callee may write any location except the protected components
+// (contract clause "assigns everything" + "noghost" / "auto").
 func (c *Ctx) havocEverythingButGhost(st *State) {
-	names, sorts := c.ghostLeaves()
+	next := c.next(st)
+	if c.dry > 0 && c.wr != nil {
+		c.wr.everythingUnprotected = true
+	}
 	keep := map[string]string{}
-	for i, n := range names {
-		keep[n] = c.H(st, n, sorts[i])
+	for k, v := range st.heap {
+		if protectedLeaf(k) {
+			keep[k] = v
+		}
 	}
-	c.havocEverything(st)
-	for n, t := range keep {
-		st.heap[n] = t
-	}
+	c.nepoch++
+	st.epoch = c.nepoch
+	st.heap = keep
+	nx := c.fresh("next", "Int")
+	c.assumeAlways(app(">=", nx, next))
+	st.heap["$next"] = nx
 }
 
 // atCallAsserts checks the top-level contract's "at call <callee> assert e" clauses at this call site.
 func (c *Ctx) atCallAsserts(fr *Frame, st *State, site ssa.Instruction, callee *ssa.Function, cenv *Env) {
 	top := c.topFrame
-	if top == nil || top.con == nil || c.dry > 0 || c.pure > 0 {
+	if top == nil || top.con == nil || c.pure > 0 {
 		return
 	}
 	rel := callee.RelString(nil)
@@ -421,6 +430,11 @@ func (c *Ctx) atCallAsserts(fr *Frame, st *State, site ssa.Instruction, callee *
 		}
 		for k, v := range cenv.vars {
 			env.vars["callee."+k] = v
+		}
+		if a.Effect != nil {
+			c.applyEffect(env, st, a.Effect)
+			c.atCallSeen[a] = true
+			continue
 		}
 		g := env.evalTop(a.Clause)
 		c.oblige("assert", fmt.Sprintf("%s#at-call[%s].assert[%s]", c.relName(top.fn), c.relName(callee), lbl(a.Clause)), a.Clause.Label, a.Clause.Props, g.Term, site.Pos(), a.Clause.Src)
@@ -540,6 +554,9 @@ func (c *Ctx) invoke(fr *Frame, st *State, site ssa.Instruction, recv *Val, m *t
 	// dynamic dispatch: in-package implementers whose method is under contract are called through
 	// that contract; every other dynamic type goes through the interface-method contract (or the default)
 	cands := c.prog.implementers(it, m.Name())
+	if top := c.topFrame; top == nil || top.con == nil || !(top.con.Dispatch || top.con.Auto) {
+		cands = nil
+	}
 	if len(cands) == 0 || c.dry > 0 {
 		return c.invokeExternal(fr, st, site, recv, m, args, rt)
 	}
